@@ -44,6 +44,8 @@ def run(ctx):
         s_["consume"] = [{"part": 0, "start": rnd.choice([-2, -2, st, rnd.randrange(st, end + 1)])}]
         scs.append(s_)
     scs += cc.fault_scenarios(plain, rnd, 6 if quick else 40)
+    scs += cc.error_code_scenarios(plain[:40], rnd)
+    scs += cc.quota_scenarios(plain[40:], rnd, 12 if quick else 80)
     scs += cc.slow_reader_scenarios(plain, rnd, 5 if quick else 40)
     scs += cc.newest_scenarios(plain + txn, rnd, 40 if quick else 400)
     scs += cc.close_scenarios(plain, rnd, 4 if quick else 30)
